@@ -479,8 +479,20 @@ func genC13(g *genState) {
 	for i := 0; i < 3; i++ {
 		g.msgs = append(g.msgs, g.newMsg(true))
 	}
+	hbStorm := r.P(0.2)
 	for i := 0; i < n; i++ {
 		m := g.pickMsg()
+		if hbStorm && r.P(0.25) {
+			// one guardian key shows up behind more peers than the heartbeat table keeps per guardian
+			k := int64(r.Intn(nKeys))
+			if cs := g.curSet(); len(cs) > 0 && r.P(0.7) {
+				k = int64(cs[r.Intn(len(cs))])
+			}
+			for j := 0; j < 14+r.Intn(5); j++ {
+				g.add("hb", k, int64(j), 0, 0, "")
+			}
+			hbStorm = r.P(0.5)
+		}
 		switch r.Pick(4, 4, 3, 3, 3, 2, 2, 1, 2) {
 		case 0:
 			if r.P(0.15) {
